@@ -6,19 +6,19 @@ from fractions import Fraction
 from common import Rng, F
 
 PROP = 'C05'
-MODEL_OPS = 'Keep.nkeep'
+MODEL_OPS = 'Keep0.nkeepN (= Keep.nkeep for n_data >= 1; n_data = 0 with numpy division semantics)'
 RULE = ('case = (ranked chi2 vector, n_data); within a case every selector of the grid and every ordered pair of selectors '
         'is applied to a fresh FitInfo whose columns are distinct per row. quick: all non-decreasing vectors of length 0..4 over '
-        '{0,1,2.5,7,+inf,nan} x n_data {1,2,5} (exhaustive) + 150 random vectors up to length 200; thorough: length 0..5 + 3000 random. '
+        '{0,1,2.5,7,+inf,nan} x n_data {0,1,2,5} (exhaustive) + 150 random vectors up to length 200; thorough: length 0..5 + 3000 random. '
         'non-trivial = some selector keeps a strict non-empty prefix.')
 EXHAUSTIVE = {'quick': True, 'thorough': True}
 ASSUMPTIONS = ['numpy argsort places NaN last (the ranked input of keep)',
                'thresholds never equal an attained value (relative margin >= 1e-9, measured exactly)',
-               'n_data >= 1; N selectors have n >= 0']
+               'n_data >= 0 (0: a source with limits only, chi2 / 0 evaluated as numpy does); N selectors have n >= 0']
 
 ALPHA = [0.0, 1.0, 2.5, 7.0, math.inf, math.nan]
 THRESH = [-0.5, 0.4, 1.1, 2.6, 6.5, 7.5]
-NDATA_FLAGS = {1: [1, 0, 9, 2], 2: [1, 4, 0, 3, 9], 5: [1, 1, 4, 4, 1, 2, 3, 0, 9], 3: [4, 9, 1, 0, 1], 7: [1] * 7 + [0, 2]}
+NDATA_FLAGS = {0: [2, 3, 0, 9], 1: [1, 0, 9, 2], 2: [1, 4, 0, 3, 9], 5: [1, 1, 4, 4, 1, 2, 3, 0, 9], 3: [4, 9, 1, 0, 1], 7: [1] * 7 + [0, 2]}
 
 
 def selectors():
@@ -35,7 +35,7 @@ def generate(tier, seed):
     cases = []
     for n in range(0, maxlen + 1):
         for vec in itertools.combinations_with_replacement(range(len(ALPHA)), n):
-            for nd in (1, 2, 5):
+            for nd in (0, 1, 2, 5):
                 cases.append(dict(kind='enum', chi=[ALPHA[i] for i in vec], nd=nd, sels=selectors(), pairs=True))
     nrand = 150 if tier == 'quick' else 3000
     for k in range(nrand):
@@ -44,7 +44,7 @@ def generate(tier, seed):
         vals = sorted(rng.choice([rng.dyadic(0, 50, 10), float(rng.randint(0, 9))]) for _ in range(nfin))
         ninf = rng.randint(0, n - nfin)
         chi = vals + [math.inf] * ninf + [math.nan] * (n - nfin - ninf)
-        nd = rng.choice([1, 2, 3, 5, 7])
+        nd = rng.choice([0, 1, 2, 3, 5, 7])
         sels = [['A', 0.0], ['N', rng.randint(0, n + 3)], ['N', rng.randint(0, n + 3)]]
         for f in 'CDEF':
             for _ in range(3):
@@ -131,15 +131,22 @@ def _crit(form, v, nd, c0, x):
     if form == 'D':
         return x - c0 <= v
     if form == 'E':
-        return x / nd <= v
+        return _div(x, nd) <= v
     if form == 'F':
-        return (x - c0) / nd <= v
+        return _div(x - c0, nd) <= v
+
+
+def _div(x, nd):
+    """IEEE division by the integer n_data (0 for a source with limits only)"""
+    if nd:
+        return x / nd
+    return math.nan if (x == 0 or math.isnan(x)) else math.copysign(math.inf, x)
 
 
 def _margin_ok(form, v, nd, chi):
     """exact relative distance of every attained value from the threshold"""
     fin = [F(x) for x in chi if math.isfinite(x)]
-    if not fin or form in 'AN':
+    if not fin or form in 'AN' or (nd == 0 and form in 'EF'):
         return True
     c0 = fin[0] if math.isfinite(chi[0]) else None
     for x in fin:
